@@ -22,7 +22,10 @@
 EXTENDS Integers, Sequences, FiniteSets, TLC
 
 CONSTANTS MaxSteps, MaxIno,
-          FIX_REPOINT        \* D2/D3 repaired: the old kernel watch is released, a stale path key is dropped
+          FIX_REPOINT,       \* D2/D3 repaired: the old kernel watch is released, a stale path key is dropped
+          OPS,               \* Add may ask for a narrow operation set (withOps: nothing that ends the watch - no IN_MOVE_SELF / IN_DELETE_SELF)
+          MASK_ADD,          \* the code: a re-Add of a listed path passes IN_MASK_ADD, the kernel adds to the mask instead of replacing it
+          ALIAS_OPS          \* a narrow Add may also be made under another name of a watched file (no IN_MASK_ADD there: the mask is replaced)
 
 Paths == {"A", "B", "H", "L", "M"}
 NoIno == 0
@@ -31,35 +34,41 @@ VARIABLES name,      \* path -> inode it names directly (0: no such entry); for 
           ltgt,      \* target path of the symbolic link L ("A" or "B")
           alive,     \* set of inodes that still exist (link count > 0)
           nextIno,
-          marks,     \* kernel: set of [wd, ino]
+          marks,     \* kernel: set of [wd, ino, end]   (end: the mask has IN_MOVE_SELF / IN_DELETE_SELF)
           nextWd,
           kq,        \* kernel queue: sequence of [wd, kind] with kind in {"delself", "ignored", "moveself"}
-          wdTab,     \* set of [wd, path]       (w.watches.wd)
+          wdTab,     \* set of [wd, path, fl]   (w.watches.wd; fl: the recorded flags contain the end bits)
           pathTab,   \* set of [path, wd]       (w.watches.path)
           panic,     \* a nil *watch was dereferenced
           uw,        \* ghost: the ideal watch set, path -> inode (first spelling wins; see Ideal.tla)
+          wantEnd,   \* ghost: listed paths for which some Add since the watch began asked for the full operation set
           away,      \* inodes that were renamed to a name outside the universe (they stay alive whatever happens to A, B, H)
           steps
-vars == <<name, ltgt, alive, nextIno, marks, nextWd, kq, wdTab, pathTab, panic, uw, away, steps>>
+vars == <<name, ltgt, alive, nextIno, marks, nextWd, kq, wdTab, pathTab, panic, uw, wantEnd, away, steps>>
 
 Init == /\ name = [p \in Paths |-> CASE p = "A" -> 1 [] p = "H" -> 1 [] p = "B" -> 2 [] OTHER -> NoIno]
         /\ ltgt = "B" /\ alive = {1, 2} /\ nextIno = 3
         /\ marks = {} /\ nextWd = 1 /\ kq = <<>>
-        /\ wdTab = {} /\ pathTab = {} /\ panic = FALSE /\ uw = [p \in {} |-> 0] /\ away = {} /\ steps = 0
+        /\ wdTab = {} /\ pathTab = {} /\ panic = FALSE /\ uw = [p \in {} |-> 0] /\ wantEnd = {} /\ away = {} /\ steps = 0
 
 \* what a path resolves to (following the link), 0 if nothing
 Resolve(p) == IF p = "L" THEN name[ltgt] ELSE name[p]
 WdOfIno(i) == {m.wd : m \in {m \in marks : m.ino = i}}
 PathWd(p) == {r.wd : r \in {r \in pathTab : r.path = p}}
 WdPath(wd) == {r.path : r \in {r \in wdTab : r.wd = wd}}
+WdFl(wd) == \E r \in wdTab : r.wd = wd /\ r.fl
+EndOf(i) == \E m \in marks : m.ino = i /\ m.end
 Without(f, S) == [x \in (DOMAIN f) \ S |-> f[x]]
 
 ---------------------------------------------------------------------------
 \* Add(p): AddWith -> register -> updatePath, transcribed
-Add(p) ==
+Add(p, all) ==
   /\ steps < MaxSteps /\ ~panic /\ steps' = steps + 1
+  /\ (all \/ OPS)
+  \* (a narrow Add under another name of a file that is already watched: only if ALIAS_OPS)
+  /\ (all \/ ALIAS_OPS \/ Resolve(p) = NoIno \/ PathWd(p) # {} \/ WdOfIno(Resolve(p)) = {})
   /\ LET i == Resolve(p) IN
-     IF i = NoIno \/ i \notin alive THEN UNCHANGED <<marks, nextWd, wdTab, pathTab, panic, uw, kq>>      \* inotify_add_watch fails: nothing changes
+     IF i = NoIno \/ i \notin alive THEN UNCHANGED <<marks, nextWd, wdTab, pathTab, panic, uw, kq, wantEnd>>      \* inotify_add_watch fails: nothing changes
      ELSE
      LET have    == PathWd(p)                                  \* wd, ok := w.path[path]
          ok      == have # {}
@@ -71,18 +80,24 @@ Add(p) ==
          known   == WdPath(kwd) # {}
          updPath == IF known THEN CHOOSE q \in WdPath(kwd) : TRUE ELSE p
          release == FIX_REPOINT /\ existing /\ oldwd # kwd          \* fix: inotify_rm_watch(old wd)
-         marks1  == (IF newMark THEN marks \cup {[wd |-> kwd, ino |-> i]} ELSE marks)
+         \* flags |= existing.flags | IN_MASK_ADD  (existing: found by PATH); the kernel adds to the mask or replaces it
+         flEnd   == all \/ (existing /\ WdFl(oldwd))
+         maskAdd == existing /\ MASK_ADD
+         marks1  == (IF newMark THEN marks \cup {[wd |-> kwd, ino |-> i, end |-> flEnd]}
+                     ELSE {IF m.wd = kwd THEN [m EXCEPT !.end = IF maskAdd THEN @ \/ flEnd ELSE flEnd] ELSE m : m \in marks})
      IN /\ marks' = IF release THEN {m \in marks1 : m.wd # oldwd} ELSE marks1
         /\ kq' = IF release /\ \E m \in marks1 : m.wd = oldwd THEN Append(kq, [wd |-> oldwd, kind |-> "ignored"]) ELSE kq
         /\ nextWd' = IF newMark THEN nextWd + 1 ELSE nextWd
         \* updatePath: w.wd[upd.wd] = upd; w.path[upd.path] = upd.wd; if upd.wd != wd { delete(w.wd, wd) [; fix: delete(w.path, path) if another path's entry] }
-        /\ LET wd1 == {r \in wdTab : r.wd # kwd} \cup {[wd |-> kwd, path |-> updPath]}
+        \* (the recorded flags are refreshed only when a row is written: the early return for a known wd leaves them as they were)
+        /\ LET wd1 == IF known THEN wdTab ELSE {r \in wdTab : r.wd # kwd} \cup {[wd |-> kwd, path |-> updPath, fl |-> flEnd]}
                \* existing.wd = wd (in place): the entry of `path` now lives under the new wd
                wd2 == IF ok /\ oldwd # kwd THEN {r \in wd1 : r.wd # oldwd} ELSE wd1
                pt1 == {r \in pathTab : r.path # updPath} \cup {[path |-> updPath, wd |-> kwd]}
                pt2 == IF FIX_REPOINT /\ ok /\ oldwd # kwd /\ updPath # p THEN {r \in pt1 : r.path # p} ELSE pt1
            IN wdTab' = wd2 /\ pathTab' = pt2
         /\ panic' = panic
+        /\ wantEnd' = IF all THEN wantEnd \cup {updPath} ELSE IF known THEN wantEnd ELSE wantEnd \ {updPath}
         \* the ideal: same file already watched -> nothing; listed path naming another file -> its watch moves; else new watch
         /\ uw' = IF \E q \in DOMAIN uw : uw[q] = i THEN (IF p \in DOMAIN uw /\ uw[p] # i THEN Without(uw, {p}) ELSE uw)
                  ELSE [q \in (DOMAIN uw) \cup {p} |-> IF q = p THEN i ELSE uw[q]]
@@ -92,15 +107,15 @@ Add(p) ==
 Remove(p) ==
   /\ steps < MaxSteps /\ ~panic /\ steps' = steps + 1
   /\ LET have == PathWd(p) IN
-     IF have = {} THEN UNCHANGED <<marks, kq, wdTab, pathTab, panic, uw>>           \* ErrNonExistentWatch
+     IF have = {} THEN UNCHANGED <<marks, kq, wdTab, pathTab, panic, uw, wantEnd>>           \* ErrNonExistentWatch
      ELSE LET wd == CHOOSE w \in have : TRUE IN
           IF WdPath(wd) = {}
-          THEN panic' = TRUE /\ UNCHANGED <<marks, kq, wdTab, pathTab, uw>>         \* watch := w.wd[wd]; watch.recurse  -- nil dereference
+          THEN panic' = TRUE /\ UNCHANGED <<marks, kq, wdTab, pathTab, uw, wantEnd>>         \* watch := w.wd[wd]; watch.recurse  -- nil dereference
           ELSE /\ pathTab' = {r \in pathTab : r.path # p}
                /\ wdTab' = {r \in wdTab : r.wd # wd}
                /\ marks' = {m \in marks : m.wd # wd}
                /\ kq' = IF \E m \in marks : m.wd = wd THEN Append(kq, [wd |-> wd, kind |-> "ignored"]) ELSE kq
-               /\ panic' = panic
+               /\ panic' = panic /\ wantEnd' = wantEnd \ {p}
                /\ uw' = Without(uw, {p})
   /\ UNCHANGED <<name, ltgt, alive, nextIno, nextWd, away>>
 
@@ -108,7 +123,7 @@ Remove(p) ==
 \* File system
 Retarget == /\ steps < MaxSteps /\ steps' = steps + 1
             /\ ltgt' = IF ltgt = "A" THEN "B" ELSE "A"
-            /\ UNCHANGED <<name, alive, nextIno, marks, nextWd, kq, wdTab, pathTab, panic, uw, away>>
+            /\ UNCHANGED <<name, alive, nextIno, marks, nextWd, kq, wdTab, pathTab, panic, uw, wantEnd, away>>
 \* unlink p (p in {A, B, H}): the inode dies with its last name -> DELETE_SELF, IGNORED, mark dropped
 Unlink(p) ==
   /\ steps < MaxSteps /\ p \in {"A", "B", "H"} /\ name[p] # NoIno /\ steps' = steps + 1
@@ -118,24 +133,25 @@ Unlink(p) ==
      /\ name' = [name EXCEPT ![p] = NoIno]
      /\ IF last THEN /\ alive' = alive \ {i}
                      /\ marks' = {m \in marks : m.ino # i}
-                     /\ kq' = IF ws = {} THEN kq ELSE LET w == CHOOSE w \in ws : TRUE IN kq \o <<[wd |-> w, kind |-> "delself"], [wd |-> w, kind |-> "ignored"]>>
+                     /\ kq' = IF ws = {} THEN kq ELSE LET w == CHOOSE w \in ws : TRUE IN
+                                kq \o (IF EndOf(i) THEN <<[wd |-> w, kind |-> "delself"]>> ELSE <<>>) \o <<[wd |-> w, kind |-> "ignored"]>>
                      /\ uw' = uw             \* the ideal follows when the record is processed (see Drain invariant)
                 ELSE UNCHANGED <<alive, marks, kq, uw>>
-  /\ UNCHANGED <<ltgt, nextIno, nextWd, wdTab, pathTab, panic, away>>
+  /\ UNCHANGED <<ltgt, nextIno, nextWd, wdTab, pathTab, panic, wantEnd, away>>
 \* mv p <somewhere unwatched> (p in {A, B}): the inode lives on under a name nobody watches -> MOVE_SELF for its mark
 MoveAway(p) ==
   /\ steps < MaxSteps /\ p \in {"A", "B"} /\ name[p] # NoIno /\ steps' = steps + 1
   /\ LET i == name[p]
          ws == WdOfIno(i) IN
      /\ name' = [name EXCEPT ![p] = NoIno]
-     /\ kq' = IF ws = {} THEN kq ELSE Append(kq, [wd |-> CHOOSE w \in ws : TRUE, kind |-> "moveself"])
+     /\ kq' = IF ws = {} \/ ~EndOf(i) THEN kq ELSE Append(kq, [wd |-> CHOOSE w \in ws : TRUE, kind |-> "moveself"])
      /\ away' = away \cup {i}
-  /\ UNCHANGED <<ltgt, alive, nextIno, marks, nextWd, wdTab, pathTab, panic, uw>>
+  /\ UNCHANGED <<ltgt, alive, nextIno, marks, nextWd, wdTab, pathTab, panic, uw, wantEnd>>
 \* create a new file under a free name
 Create(p) ==
   /\ steps < MaxSteps /\ p \in {"A", "B"} /\ name[p] = NoIno /\ nextIno <= MaxIno /\ steps' = steps + 1
   /\ name' = [name EXCEPT ![p] = nextIno] /\ alive' = alive \cup {nextIno} /\ nextIno' = nextIno + 1
-  /\ UNCHANGED <<ltgt, marks, nextWd, kq, wdTab, pathTab, panic, uw, away>>
+  /\ UNCHANGED <<ltgt, marks, nextWd, kq, wdTab, pathTab, panic, uw, wantEnd, away>>
 
 \* Reader: one record, under the lock (table part of handleEvent)
 Handle ==
@@ -160,9 +176,10 @@ Handle ==
              /\ pathTab' = {x \in pathTab : ~(x.path = q /\ x.wd = r.wd)}        \* (since D13: only if the key still belongs to this watch)
              /\ uw' = IF r.kind = "delself" /\ q \in DOMAIN uw /\ uw[q] \notin alive THEN Without(uw, {q}) ELSE uw
              /\ UNCHANGED marks /\ kq' = Tail(kq)
+  /\ wantEnd' = wantEnd \cap {x.path : x \in pathTab'}
   /\ UNCHANGED <<name, ltgt, alive, nextIno, nextWd, panic, away, steps>>
 
-Next == (\E p \in Paths : Add(p) \/ Remove(p) \/ Unlink(p) \/ Create(p) \/ MoveAway(p)) \/ Retarget \/ Handle
+Next == (\E p \in Paths : Add(p, TRUE) \/ Add(p, FALSE) \/ Remove(p) \/ Unlink(p) \/ Create(p) \/ MoveAway(p)) \/ Retarget \/ Handle
 Spec == Init /\ [][Next]_vars
 
 ---------------------------------------------------------------------------
@@ -174,5 +191,8 @@ Quiet == kq = <<>>
 \* C12: once the stream is quiescent, the kernel's marks are exactly those backing the listed paths
 MarksBacked == Quiet => {m.wd : m \in marks} = {x.wd : x \in wdTab}
 \* C04/C09: ... and WatchList is the ideal watch set restricted to files that still exist
+\* C09 / C15: what any Add of a listed path asked for stays subscribed - in particular the bits that end the watch when the
+\* path is renamed or deleted (the kernel mask is added to, never narrowed, by a later Add)
+MaskOK == Quiet => \A r \in pathTab : r.path \in wantEnd => \E m \in marks : m.wd = r.wd /\ m.end
 ListOK == Quiet => {r.path : r \in pathTab} = {q \in DOMAIN uw : uw[q] \in alive}
 =============================================================================
